@@ -37,6 +37,16 @@ func gcsWorkerMain() {
 			return
 		}
 		f := strings.Fields(line)
+		if len(f) == 4 && f[0] == "eval" {
+			var src []byte
+			if f[1] != "-" {
+				src, _ = hex.DecodeString(f[1])
+			}
+			gcsEvalRequest(out, src, f[2], f[3])
+			fmt.Fprintf(out, ".\n")
+			out.Flush()
+			continue
+		}
 		if len(f) != 2 {
 			continue
 		}
@@ -287,7 +297,7 @@ func (g gcsComp) Exec(c *wire.Case, w *wire.Writer) {
 	defer func() { wk.stop() }()
 	for _, op := range c.Ops {
 		w.Op(op)
-		if op.Name != "lex" && op.Name != "parse" {
+		if op.Name != "lex" && op.Name != "parse" && op.Name != "eval" {
 			w.Ob(wire.R("badop"))
 			continue
 		}
@@ -295,7 +305,11 @@ func (g gcsComp) Exec(c *wire.Case, w *wire.Writer) {
 		if h == "" {
 			h = "-" // the empty input
 		}
-		lines, status := wk.ask(op.Name, h, time.Duration(5000+len(h)/10)*time.Millisecond)
+		req := h
+		if op.Name == "eval" {
+			req = h + " " + op.Str("calls") + " " + op.Str("draws")
+		}
+		lines, status := wk.ask(op.Name, req, time.Duration(5000+len(h)/10)*time.Millisecond)
 		if status != "" {
 			w.Ob(wire.R(status))
 			wk.stop()
@@ -375,6 +389,9 @@ func mutate(r *rand.Rand, b []byte) []byte {
 }
 
 func (g gcsComp) Gen(r *rand.Rand, tier string, n int) []*wire.Case {
+	if g.mode == "eval" {
+		return evalGen(r, tier, n)
+	}
 	var cases []*wire.Case
 	add := func(id string, srcs ...string) {
 		var ops []*wire.Rec
